@@ -423,6 +423,37 @@ theorem recv_publish_delivery_exact (s : Server) (hs : SyncInv s) (hw : WF s) (h
   rw [entitledSession_retainedState] at h2
   exact ⟨h1, h2, h3, h4⟩
 
+/-- **Item 3 — the inline API.**  `step s (.inlinePublish topic payload retain qos)` (`Server.Publish`): the inline
+    client (object 0) passes the topic-validity and write-ACL gates unexamined; `AcceptedInline` asks for what still
+    applies (no wildcard, non-empty topic, its receive quota, no publish-hook mode, no deferred message of its own).
+    The message must be QoS 0 after shaping: `qos = 0`, or every matching plain subscription of the index is QoS 0.
+    Conclusions as in `recv_publish_delivery_exact`, for `inlineMsg …` (origin = the inline client's id). -/
+theorem inline_publish_delivery_exact (s : Server) (hs : SyncInv s) (hw : WF s) (hcm : ConnMap s)
+    (topic payload : Str) (retain : Bool) (qos : Nat) (h : AcceptedInline s topic)
+    (hq : qos = 0 ∨ ∀ c sub, MatchingSub s.topics topic c sub → sub.qos = 0)
+    (hsh : (subscribers s.topics topic).shared = []) (n : Nat) :
+    ((∃ ver m mes, Out.wrote n (.publish ver m mes) ∈ (step s (.inlinePublish topic payload retain qos)).2) ↔
+      EntitledF03 s (inlineMsg s topic payload retain qos) n) ∧
+    (EntitledF03 s (inlineMsg s topic payload retain qos) n ↔
+      EntitledSession s (inlineMsg s topic payload retain qos) n) ∧
+    ((step s (.inlinePublish topic payload retain qos)).2.filterMap pubConn).count n ≤ 1 ∧
+    ∀ x ∈ (step s (.inlinePublish topic payload retain qos)).2,
+      (∃ id, x = Out.inline id topic payload) ∨ IsCopy (inlineMsg s topic payload retain qos) x := by
+  have hnh := no_hash_level_of_noWild topic h.noWild
+  have hsh' := (retainedState_shared s (inlineMsg s topic payload retain qos) hs.idx topic h.nonempty hnh).mpr hsh
+  obtain ⟨is, iw, ic⟩ := retainedState_inv (inlineMsg s topic payload retain qos) hs hw hcm
+  have hq' : (inlineMsg s topic payload retain qos).qos = 0 ∨
+      ∀ c sub, MatchingSub (retainedState s (inlineMsg s topic payload retain qos)).topics topic c sub → sub.qos = 0 :=
+    hq.imp (inlineMsg_fields s topic payload retain qos).2.2.2.2.2
+      (fun g c sub hm => g c sub ((matchingSub_congr (retainedState_quiet s _).plain topic c sub).mp hm))
+  rw [step_inlinePublish_accepted s topic payload retain qos h
+    (hq'.imp id (merged_qos_zero _ is.idx topic h.nonempty hnh (C03_one_entry_per_client _ topic))) hsh']
+  obtain ⟨h1, h2, h3, h4⟩ := C03_delivery_exact_inv_partial _ is iw ic (inlineMsg s topic payload retain qos)
+    rfl rfl hq' h.nonempty hnh hsh' n
+  rw [entitledF03_retainedState] at h1 h2
+  rw [entitledSession_retainedState] at h2
+  exact ⟨h1, h2, h3, h4⟩
+
 end Mochi.Broker
 
 #print axioms Mochi.Broker.publishToSubscribers_writes_exact
@@ -436,3 +467,4 @@ end Mochi.Broker
 #print axioms Mochi.Broker.C03_delivery_full_false_F03
 #print axioms Mochi.Broker.c03State_reach
 #print axioms Mochi.Broker.recv_publish_delivery_exact
+#print axioms Mochi.Broker.inline_publish_delivery_exact
